@@ -101,8 +101,44 @@ def report(ctx, fails, batch, mode):
         ctx.violation(sig, "%s: simulator disagrees with UPSeqSem (%s) on a generated problem" % (mode, clause), data)
 
 
+def g1_corpus(ctx, maxeff, sample):
+    """MC_EffectCombos: one-action problems enumerated by TLC (spec/SeqSemEnum.tla)"""
+    import json
+
+    d = ctx.sub("g1enum")
+    out = os.path.join(d, "cases.ndjson")
+    hdr = os.path.join(d, "header.json")
+    res = tlc.run_tlc("SeqSemEnum", "INIT Init\nNEXT Next\nCONSTANTS MaxEff = %d\n" % maxeff, d, env={"OUT": out, "HEADER": hdr}, workers=1, timeout=3000)
+    if res.error:
+        raise MachineryError(res.error)
+    H = json.load(open(hdr))
+    idx = tlc.read_ndjson(out)
+    total = len(idx)
+    if sample and len(idx) > sample:
+        idx = ctx.rng.sample(idx, sample)
+    cases = []
+    for c in idx:
+        P = json.loads(json.dumps(H["template"]))
+        P["actions"][0]["effects"] = [H["menu"][i - 1] for i in c["effs"]]
+        P["invariants"] = H["invs"][c["inv"] - 1]
+        P["init"] = H["inits"][c["init"] - 1]
+        cases.append(P)
+    return cases, total
+
+
 def run_mode(ctx, mode):
     q = ctx.quick
+    # ---- G1: TLC-enumerated effect combinations (exhaustive for <= 2 effects in the thorough tier) ----
+    g1, g1_total = g1_corpus(ctx, 2 if q else 3, 300 if q else 9000)
+    recs1 = observe_corpus(ctx, g1, 2, 60, mode)
+    fails1, batch1, _ = judge(ctx, recs1, mode, "g1")
+    for r in batch1:
+        r["pid"] = r["pid"]
+    report(ctx, fails1, batch1, mode)
+    ctx.cov["g1_enumerated"] = g1_total
+    ctx.cov["g1_judged"] = len(batch1)
+    ctx.cov["evaluations"] += sum(len(o["acts"]) for r in batch1 for o in r["obs"])
+    ctx.cov["traces_validated_against_impl"] += len(batch1)
     n = 400 if q else 4000
     depth = 4 if q else 6
     cap = 150 if q else 400
